@@ -54,6 +54,7 @@ type scheduler struct {
 	sideVals    map[*value]value // atomic.Value / atomic.Pointer contents
 	nextHid     int
 	preemptAtSync bool
+	preemptAtAtomics bool
 	quiescing   map[*gstate]bool
 	preemptCap  *int
 	done       chan pathEnd
